@@ -15,7 +15,7 @@ from common import err_code
 
 PROP = 11
 FN_NAME = {1: "HMMResult", 2: "NRPSPKSDomains", 3: "TTAResults", 4: "HmmerResults", 5: "HMMDetectionResults",
-           6: "SideloadedResults"}
+           6: "SideloadedResults", 7: "RuleDetectionResults"}
 
 
 # ---------------------------------------------------------------- flat JSON encoding
@@ -817,6 +817,9 @@ def proto_dump(protos):
              p.product_category) for p in protos]
 
 
+REAL_RULE_RESULTS = []      # filled by detection_cycle: the rule_results JSON of the real detection
+
+
 def detection_cycle(case):
     """ runs the real detection, saves, regenerates against an identical fresh record, twice.
         Returns (status, details); status None when the detection itself fails (not this property) """
@@ -842,8 +845,19 @@ def detection_cycle(case):
     except Exception as exc:  # pylint: disable=broad-except
         hmm_detection.get_ruleset = old
         return None, f"detection raised {type(exc).__name__}"
+    text0 = asjson.dumps(results.to_json())          # before the protoclusters are in the record
+    REAL_RULE_RESULTS.append(results.to_json()["rule_results"])
+    try:
+        # the pipeline (main.run_detection_stage): the results are added to the record, the JSON is
+        # written at the end of the run: protocluster_number and contig_edge are part of it
+        results.add_to_record(record)
+    except Exception as exc:  # pylint: disable=broad-except
+        hmm_detection.get_ruleset = old
+        return None, f"add_to_record raised {type(exc).__name__}"
     text1 = asjson.dumps(results.to_json())
-    expected = (proto_dump(results.get_predicted_protoclusters()), cds_annotations(record))
+    REAL_RULE_RESULTS.append(results.to_json()["rule_results"])
+    expected = (proto_dump(results.get_predicted_protoclusters()), cds_annotations(record),
+                proto_dump(record.get_protoclusters()))
     try:
         text = text1
         for cycle in (1, 2):
@@ -854,12 +868,20 @@ def detection_cycle(case):
                 return False, f"cycle {cycle}: regenerating raised {type(exc).__name__}: {exc}"
             if again is None:
                 return False, f"cycle {cycle}: results discarded under unchanged options"
+            if asjson.dumps(again.to_json()) != text0:
+                return False, f"cycle {cycle}: saved JSON text differs (before add_to_record)"
+            try:
+                again = hmm_detection.run_on_record(record2, again, options)
+                again.add_to_record(record2)
+            except Exception as exc:  # pylint: disable=broad-except
+                return False, f"cycle {cycle}: adding the regenerated results to the record raised {type(exc).__name__}: {exc}"
             text_next = asjson.dumps(again.to_json())
             if text_next != text:
                 return False, f"cycle {cycle}: saved JSON text differs"
-            got = (proto_dump(again.get_predicted_protoclusters()), cds_annotations(record2))
+            got = (proto_dump(again.get_predicted_protoclusters()), cds_annotations(record2),
+                   proto_dump(record2.get_protoclusters()))
             if got != expected:
-                which = "protoclusters" if got[0] != expected[0] else "gene annotations"
+                which = "protoclusters" if got[0] != expected[0] or got[2] != expected[2] else "gene annotations"
                 return False, f"cycle {cycle}: {which} differ after regenerating"
             text = text_next
     finally:
@@ -994,8 +1016,8 @@ def run(chk):
     rng = chk.rng
     labels = Labels()
     quick = chk.tier == "quick"
-    n = {1: 6000, 2: 1200, 3: 5000, 4: 4000, 5: 4000, 6: 4000} if quick else \
-        {1: 90000, 2: 14000, 3: 60000, 4: 50000, 5: 50000, 6: 50000}
+    n = {1: 5000, 2: 1100, 3: 4000, 4: 3500, 5: 3500, 6: 3500, 7: 2500} if quick else \
+        {1: 80000, 2: 13000, 3: 55000, 4: 45000, 5: 45000, 6: 45000, 7: 30000}
     cases, impl_outs, meta = [], [], []
 
     def guard_check(fn, args, out):
@@ -1137,7 +1159,24 @@ def run(chk):
         out = impl_side(args, on_cycle)
         add(6, args, out, what, bool(args[0].get("protoclusters") or args[0].get("subregions")))
 
-    model_outs = common.correspondence(chk, cases, impl_outs,
+    # fn 7: the protocluster / CDS payload of RuleDetectionResults (generated saved forms + deviations)
+    import c11_rule
+    for _ in range(n[7]):
+        args, what = c11_rule.gen_rule(rng)
+        args = through_orjson(args)
+        out = c11_rule.impl_rule(args)
+        if what == "as_saved":
+            expected = out_ok(c11_rule.dropped_in_record(through_orjson(args[0])))
+            if out != expected:
+                chk.violation("counterexample", "RuleDetectionResults: saved rule results are not regenerated to the same JSON "
+                              "(up to protocluster_number / contig_edge)",
+                              {"input": args, "implementation": out[:60],
+                               "theorem_or_correspondence": "C11_codec_RuleDetectionResults"})
+        add(7, args, out, what, bool(args[0].get("cds_by_protocluster")))
+
+    # spec_fn_offset: on a disagreement the "saved form" specification (fn + 10) is evaluated on the
+    # implementation's output: a saved-form input that is not regenerated identically is a counterexample
+    model_outs = common.correspondence(chk, cases, impl_outs, spec_fn_offset=10,
                                        describe=lambda flat: {"function": FN_NAME.get(flat[1]), "payload": flat[2:]})
     unmodelled = sum(1 for m in model_outs if m[:2] == [1, 98] or m == [-999])
     chk.extra["outside_modelled_domain"] = unmodelled
@@ -1147,11 +1186,19 @@ def run(chk):
     chk.crosscheck_vm(cases, model_outs)
 
     # whole-object cycles on real rule detection results
-    n_det = 400 if quick else 6000
+    n_det = 300 if quick else 5000
     done = 0
+    real_cases, real_outs = [], []
     for _ in range(n_det):
         case = detection_case(rng)
+        del REAL_RULE_RESULTS[:]
         ok, info = detection_cycle(case)
+        for rule_json in REAL_RULE_RESULTS:
+            # the rule results of the real detection (before / after add_to_record) through the payload model
+            args = through_orjson([rule_json, [g for g, _ in case["genes"]], 4])
+            real_cases.append([PROP, 7] + enc(args))
+            real_outs.append(c11_rule.impl_rule(args))
+            chk.count("RuleDetectionResults:real_detection_results")
         if ok is None:
             chk.count("detection_cycle:" + info)
             continue
@@ -1165,7 +1212,20 @@ def run(chk):
             chk.violation("counterexample", "rule detection results: " + info,
                           {"input": case, "theorem_or_correspondence": "HMMDetectionResults save/regenerate cycle"})
             break
-    n_tta = 300 if quick else 4000
+    if real_cases:
+        real_model = common.correspondence(chk, real_cases, real_outs, label="payload model vs implementation on real detection results",
+                                           describe=lambda flat: {"function": FN_NAME.get(flat[1]), "payload": flat[2:]})
+        for flat, out in zip(real_cases, real_outs):
+            chk.note_case(flat, out[:2] == [0, 1], None)
+            if out[:2] != [0, 1]:
+                chk.violation("counterexample", "RuleDetectionResults.from_json does not regenerate the rule results of a real detection",
+                              {"flat": flat, "implementation": out[:20], "theorem_or_correspondence": "C11_codec_RuleDetectionResults"})
+                break
+        chk.extra["real_rule_results_outside_model"] = sum(1 for m in real_model if m[:2] == [1, 98] or m == [-999])
+        if chk.extra["real_rule_results_outside_model"]:
+            chk.violation("broken-correspondence", "real detection results fall outside the modelled domain of the payload model",
+                          {"theorem_or_correspondence": "generator discipline"})
+    n_tta = 250 if quick else 3500
     for _ in range(n_tta):
         ok, info = tta_cycle(rng)
         if not ok:
